@@ -51,4 +51,311 @@ theorem thr_dec (f : Frame) : Thr f f.dec := by
 
 theorem thr_stamp (f : Frame) (a b : Mac) : Thr f (f.stamp a b) := ⟨Int.le_refl _, rfl, rfl, rfl, rfl⟩
 
+
+/-- the seven frame-threading functions of the interpreter, at one fuel level. -/
+structure ThrAt (fuel : Nat) : Prop where
+  send : ∀ st n i f, Thr f (sendFrame fuel st n i f).2
+  recv : ∀ st n i f, Thr f (ifaceRecv fuel st n i f).2
+  sw : ∀ st n i f, Thr f (switchRecv fuel st n i f).2
+  flood : ∀ st n i f ports, Thr f (floodPorts fuel st n i f ports).2
+  host : ∀ st n i f, Thr f (hostRecv fuel st n i f).2
+  router : ∀ st n i f, Thr f (routerRecv fuel st n i f).2
+  process : ∀ st n i f, Thr f (routerProcess fuel st n i f).2
+
+theorem thrAt_zero : ThrAt 0 := by
+  constructor <;> intros <;> simp only [sendFrame, ifaceRecv, switchRecv, floodPorts, hostRecv, routerRecv, routerProcess] <;>
+    exact Thr.refl _
+
+theorem flood_fold (fuel : Nat) (ih : ThrAt fuel) (n i : Nat) (ports : List Nat) :
+    ∀ (st : St) (f g : Frame), Thr f g →
+      Thr f (ports.foldl (fun (acc : St × Frame) p =>
+        match acc.1.iface? n p with
+        | some pif => if pif.enabled && p != i then sendFrame fuel acc.1 n p acc.2 else acc
+        | none => acc) (st, g)).2 := by
+  induction ports with
+  | nil => intro st f g h; simpa using h
+  | cons p ps ihp =>
+    intro st f g h
+    simp only [List.foldl_cons]
+    split
+    · split
+      · have := ih.send st n p g
+        generalize sendFrame fuel st n p g = r at this ⊢
+        obtain ⟨st', g'⟩ := r
+        exact ihp st' f g' (h.trans this)
+      · exact ihp st f g h
+    · exact ihp st f g h
+
+
+macro "thr_close" ih:ident : tactic => `(tactic| with_reducible first
+  | exact Thr.refl _
+  | exact thr_dec _
+  | exact ($ih).send _ _ _ _
+  | exact ($ih).recv _ _ _ _
+  | exact ($ih).flood _ _ _ _ _
+  | exact ($ih).process _ _ _ _
+  | exact (thr_dec _).trans (($ih).host _ _ _ _)
+  | exact (thr_dec _).trans (($ih).router _ _ _ _)
+  | exact (thr_dec _).trans (($ih).sw _ _ _ _)
+  | exact (thr_dec _).trans ((thr_stamp _ _ _).trans (($ih).send _ _ _ _)))
+
+theorem thrAt_succ (fuel : Nat) (ih : ThrAt fuel) : ThrAt (fuel + 1) := by
+  constructor
+  · intro st n i f
+    simp only [sendFrame]
+    repeat' split
+    all_goals thr_close ih
+  · intro st n i f
+    simp only [ifaceRecv]
+    repeat' split
+    all_goals thr_close ih
+  · intro st n i f
+    simp only [switchRecv]
+    repeat' split
+    all_goals thr_close ih
+  · intro st n i f ports
+    simp only [floodPorts]
+    exact flood_fold fuel ih n i ports st f f (Thr.refl f)
+  · intro st n i f
+    simp only [hostRecv]
+    repeat' split
+    all_goals thr_close ih
+  · intro st n i f
+    simp only [routerRecv]
+    repeat' split
+    all_goals thr_close ih
+  · intro st n i f
+    simp only [routerProcess]
+    repeat' split
+    all_goals thr_close ih
+
+theorem thrAt (fuel : Nat) : ThrAt fuel := by
+  induction fuel with
+  | zero => exact thrAt_zero
+  | succ k ih => exact thrAt_succ k ih
+
+
+/-! #### the TTL statements -/
+
+/-- `decrement_ttl` lowers the TTL by exactly one, and the frame counts as accepted for processing exactly when the
+test `ttl < 1` that follows every decrement fails. -/
+theorem C08_ttl_strict (f : Frame) :
+    f.dec.ttl = f.ttl - 1 ∧ (f.dec.fwd = f.fwd + 1 ↔ ¬ f.dec.ttl < 1) ∧ (f.dec.fwd = f.fwd ↔ f.dec.ttl < 1) := by
+  unfold Frame.dec
+  refine ⟨rfl, ?_, ?_⟩ <;> simp only <;> split <;> omega
+
+/-- A frame whose TTL is exhausted by the decrement is dropped by the receiving interface (host NIC, router interface
+or switch port) before ANY processing: the only trace is the log entry; no table is touched, nothing is sent. -/
+theorem C08_exhausted_dropped_on_receive (fuel : Nat) (st : St) (n i : Nat) (f : Frame) (nd : Node) (ifc : Iface)
+    (hn : st.node? n = some nd) (hi : st.iface? n i = some ifc) (ht : f.ttl ≤ 1) :
+    ifaceRecv (fuel + 1) st n i f = (st.emit (.rx n i f.id f.ttl), f.dec) := by
+  have hd : f.dec.ttl < 1 := by unfold Frame.dec; simp only; omega
+  simp only [ifaceRecv, hn, hi, hd, if_true]
+
+/-- Whatever happens to a frame object handed to an interface — every nested delivery, every branch of every flood,
+every router hop, at any nesting depth — it stays the same object (identity, IP addresses, payload) and its potential
+`accepted-so-far + max 0 ttl` never increases. -/
+theorem C08_ttl_potential (fuel : Nat) (st : St) (n i : Nat) (f : Frame) :
+    Thr f (sendFrame fuel st n i f).2 := (thrAt fuel).send st n i f
+
+/-- Forwarding of one frame ends: the number of times a frame object is accepted for processing (receives that pass
+the TTL test + router hops that pass it), summed over ALL branches of all floods it takes part in, is at most its TTL. -/
+theorem C08_hops_le_ttl (fuel : Nat) (st : St) (n i : Nat) (f : Frame) (h0 : f.fwd = 0) :
+    ((sendFrame fuel st n i f).2.fwd : Int) ≤ max 0 f.ttl := by
+  have h := (C08_ttl_potential fuel st n i f).1
+  unfold pot at h
+  rw [h0] at h
+  have : (0 : Int) ≤ max 0 (sendFrame fuel st n i f).2.ttl := Int.le_max_left _ _
+  omega
+
+/-- the same bound for a frame as the session manager builds it (TTL 64): one flood shares one frame object, so the
+total over all its branches is bounded by the initial TTL. -/
+theorem C08_flood_total_le_ttl (fuel : Nat) (st : St) (n i : Nat) (f : Frame) (h0 : f.fwd = 0) (ht : f.ttl = initTtl) :
+    (sendFrame fuel st n i f).2.fwd ≤ 64 := by
+  have h := C08_hops_le_ttl fuel st n i f h0
+  rw [ht] at h
+  unfold initTtl at h
+  omega
+
+/-- the same statements for a frame entering at a receiving interface and for the router's forwarding step. -/
+theorem C08_ttl_potential_recv (fuel : Nat) (st : St) (n i : Nat) (f : Frame) :
+    Thr f (ifaceRecv fuel st n i f).2 ∧ Thr f (routerProcess fuel st n i f).2 ∧
+      ∀ ports, Thr f (floodPorts fuel st n i f ports).2 :=
+  ⟨(thrAt fuel).recv st n i f, (thrAt fuel).process st n i f, (thrAt fuel).flood st n i f⟩
+
+example : ∃ f : Frame, f.fwd = 0 ∧ f.ttl = initTtl :=
+  ⟨{ id := 0, srcMac := 1, dstMac := 2, srcIp := 0, dstIp := 1, ttl := 64, pl := .echoReq 7 }, rfl, rfl⟩
+
+/-! ### ARP look-ups re-attempt at most twice -/
+
+/-- rank of the two flags `is_reattempt`, `is_default_gateway_attempt` / `is_default_route_attempt`. -/
+def flagRank (re gw : Bool) : Nat := (if re then 0 else 2) + (if gw then 0 else 1)
+
+/-- every self-call of `HostARP._get_arp_cache_mac_address / _network_interface` strictly lowers the rank. -/
+theorem C08_arp_host_rank (nd : Node) (ip t : Ip) (re gw re' gw' : Bool)
+    (h : hostArpNext nd ip re gw = .go t re' gw') : flagRank re' gw' < flagRank re gw := by
+  unfold hostArpNext at h
+  cases re <;> cases gw <;> cases hg : nd.gateway <;> simp [hg] at h <;>
+    (try split at h) <;> (try simp at h) <;> (try (obtain ⟨_, rfl, rfl⟩ := h)) <;> simp [flagRank]
+
+/-- every self-call of `RouterARP._get_arp_cache_mac_address / _network_interface` strictly lowers the rank. -/
+theorem C08_arp_router_rank (nd : Node) (ip t : Ip) (re gw re' gw' b : Bool)
+    (h : routerArpNext nd ip re gw b = .go t re' gw') : flagRank re' gw' < flagRank re gw := by
+  unfold routerArpNext at h
+  cases re <;> cases gw <;> simp at h <;> (repeat' split at h) <;> (try simp at h) <;>
+    (try (obtain ⟨_, rfl, rfl⟩ := h)) <;> simp [flagRank]
+
+/-- so one look-up reads the cache at most three times and sends at most two ARP requests. -/
+theorem C08_arp_depth_le_3 (re gw : Bool) : flagRank re gw ≤ 3 := by
+  cases re <;> cases gw <;> simp [flagRank]
+
+
+/-! ### host next hop: on-link destinations directly, everything else via the default gateway, else nothing -/
+
+/-- the frame the session manager builds. -/
+def mkFrame (st : St) (oif : Iface) (dmac : Mac) (dst : Ip) (pl : Pl) : Frame :=
+  { id := st.nextId, srcMac := oif.mac, dstMac := dmac, srcIp := oif.ip, dstIp := dst, ttl := initTtl, pl := pl }
+
+/-- Destination inside the subnet of an enabled NIC and resolved in the ARP cache: the frame goes DIRECTLY to the
+destination's cached MAC, out of the interface the entry names. -/
+theorem C08_host_next_hop_direct (fuel : Nat) (st : St) (n k : Nat) (nd : Node) (dst : Ip) (pl : Pl) (e : ArpEntry)
+    (hn : st.node? n = some nd) (_hk : nd.kind = .host)
+    (hon : firstEnabledIn nd.ifaces dst 0 = some k) (he : nd.arpGet dst = some e) :
+    sendIcmp (fuel + 2) st n dst pl =
+      match st.iface? n e.ifc with
+      | none => st
+      | some oif => (sendFrame (fuel + 1) { st with nextId := st.nextId + 1 } n e.ifc (mkFrame st oif e.mac dst pl)).1 := by
+  simp only [sendIcmp, hn, hon, arpMac, arpIfc, he, mkFrame]
+  rfl
+
+/-- Destination outside every enabled NIC's subnet, gateway configured and resolved: the frame keeps the destination
+IP address but is sent to the GATEWAY's cached MAC. -/
+theorem C08_host_next_hop_gateway (fuel : Nat) (st : St) (n : Nat) (nd : Node) (dst g : Ip) (pl : Pl) (e : ArpEntry)
+    (hn : st.node? n = some nd) (hk : nd.kind = .host)
+    (hoff : firstEnabledIn nd.ifaces dst 0 = none) (hg : nd.gateway = some g) (he : nd.arpGet g = some e)
+    (hen : nd.ifaces.any (·.enabled) = true) :
+    sendIcmp (fuel + 2) st n dst pl =
+      match st.iface? n e.ifc with
+      | none => st
+      | some oif => (sendFrame (fuel + 1) { st with nextId := st.nextId + 1 } n e.ifc (mkFrame st oif e.mac dst pl)).1 := by
+  simp only [sendIcmp, hn, hoff, hk, hg, arpMac, arpIfc, he, hen, if_true, mkFrame]
+  rfl
+
+/-- Destination outside every enabled NIC's subnet and no default gateway: nothing is transmitted and nothing changes. -/
+theorem C08_host_next_hop_none (fuel : Nat) (st : St) (n : Nat) (nd : Node) (dst : Ip) (pl : Pl)
+    (hn : st.node? n = some nd) (hk : nd.kind = .host)
+    (hoff : firstEnabledIn nd.ifaces dst 0 = none) (hg : nd.gateway = none) :
+    sendIcmp (fuel + 1) st n dst pl = st := by
+  simp only [sendIcmp, hn, hoff, hk, hg]
+
+/-- and `ping` does not even try: without a gateway an off-link destination resolves no outbound interface. -/
+theorem C08_host_no_route_no_interface (fuel : Nat) (st : St) (n : Nat) (nd : Node) (dst : Ip)
+    (hn : st.node? n = some nd) (hk : nd.kind = .host)
+    (hoff : firstEnabledIn nd.ifaces dst 0 = none) (hg : nd.gateway = none) :
+    resolveOut (fuel + 1) st n dst = (st, none) := by
+  simp only [resolveOut, hn, hoff, hk, hg]
+
+/-! ### addressee: hosts accept unicast frames by MAC alone, so correctness rests on how frames are addressed -/
+
+/-- MAC addresses are unique over all interfaces. -/
+def UniqueMacs (st : St) : Prop :=
+  ∀ (n m i j : Nat) (a b : Iface), st.iface? n i = some a → st.iface? m j = some b → a.mac = b.mac → n = m ∧ i = j
+
+/-- the destination MAC of `f` belongs to an interface that carries the destination IP address, or to a router. -/
+def WellAddressed (st : St) (f : Frame) : Prop :=
+  ∃ (m j : Nat) (b : Iface) (ndm : Node), st.node? m = some ndm ∧ st.iface? m j = some b ∧ b.mac = f.dstMac ∧
+    (b.ip = f.dstIp ∨ ndm.kind = .router)
+
+/-- a cache entry is sound for destination `dst`: its MAC belongs to the interface carrying `dst`, or to a router
+(routers and hosts learn `src_ip ↦ src_mac` from routed frames, so remote addresses map to the last router). -/
+def EntrySoundFor (st : St) (e : ArpEntry) (dst : Ip) : Prop :=
+  ∃ (m j : Nat) (b : Iface) (ndm : Node), st.node? m = some ndm ∧ st.iface? m j = some b ∧ b.mac = e.mac ∧
+    (b.ip = dst ∨ ndm.kind = .router)
+
+/-- FULL statement (kept visible, NOT proved): in every run of the model from a state with unique addresses whose
+caches are sound, software is handed a unicast frame only on the node that owns its destination address. What is
+missing is the preservation of cache soundness by every processing step of the interpreter. The rig evaluates exactly
+this statement on every generated run of the implementation (oracle (c) of R-net). -/
+def C08_FullUnicastOnlyAddressee : Prop :=
+  ∀ (fuel : Nat) (st : St) (n : Nat) (dst : Ip) (pl : Pl),
+    UniqueMacs st →
+    (∀ (k : Nat) (nd : Node) (e : ArpEntry), st.node? k = some nd → e ∈ nd.arp → EntrySoundFor st e e.ip) →
+    ∀ (m fid : Nat) (ip : Ip), Ev.sw m fid ip false ∈ (sendIcmp fuel st n dst pl).log →
+      ∃ (j : Nat) (b : Iface), (sendIcmp fuel st n dst pl).iface? m j = some b ∧ b.ip = ip
+
+/-- PARTIAL (per hop, static state): a host NIC accepts a well-addressed unicast frame only if it carries the frame's
+destination IP address. -/
+theorem C08_unicast_only_addressee_partial (st : St) (n i : Nat) (nd : Node) (ifc : Iface) (f : Frame)
+    (hn : st.node? n = some nd) (hk : nd.kind = .host) (hi : st.iface? n i = some ifc)
+    (hu : UniqueMacs st) (hw : WellAddressed st f) (huni : f.dstMac ≠ bcastMac)
+    (hacc : hostAccepts ifc f = true) : ifc.ip = f.dstIp := by
+  unfold hostAccepts at hacc
+  have hne : (f.dstMac == bcastMac) = false := by simpa using huni
+  simp only [hne, Bool.false_eq_true, if_false, beq_iff_eq] at hacc
+  obtain ⟨m, j, b, ndm, hm, hb, hmac, hor⟩ := hw
+  obtain ⟨rfl, rfl⟩ := hu m n j i b ifc hb hi (hmac.trans hacc)
+  rw [hi] at hb
+  have hbi : b = ifc := by simpa using hb.symm
+  rw [hn] at hm
+  have hnd : ndm = nd := by simpa using hm.symm
+  subst hbi hnd
+  rcases hor with h | h
+  · exact h
+  · rw [hk] at h; cases h
+
+/-- PARTIAL (per hop, static state): the header rewrite of `process_frame` / `route_frame` with the MAC of a cache
+entry that is sound for the frame's destination re-establishes well-addressedness; TTL and addresses as in
+`C08_ttl_strict`. -/
+theorem C08_router_hop_keeps_well_addressed (st : St) (f : Frame) (src : Mac) (e : ArpEntry)
+    (hs : EntrySoundFor st e f.dstIp) : WellAddressed st (f.dec.stamp src e.mac) ∧ (f.dec.stamp src e.mac).dstIp = f.dstIp := by
+  obtain ⟨m, j, b, ndm, hm, hb, hmac, hor⟩ := hs
+  exact ⟨⟨m, j, b, ndm, hm, hb, hmac, hor⟩, rfl⟩
+
+
+/-! ### non-vacuity: a concrete network (host A — host B on one link; A also has a default gateway) -/
+
+def ipA : Ip := 0xC0A80102#32
+def ipB : Ip := 0xC0A80103#32
+def ipGw : Ip := 0xC0A80101#32
+def ipFar : Ip := 0x08080808#32
+def exA : Node :=
+  { kind := .host, gateway := some ipGw,
+    ifaces := [{ mac := 1, ip := ipA, plen := 24, enabled := true, peer := some (1, 0) }],
+    arp := [{ ip := ipB, mac := 2, ifc := 0 }, { ip := ipGw, mac := 2, ifc := 0 }] }
+def exB : Node :=
+  { kind := .host, ifaces := [{ mac := 2, ip := ipB, plen := 24, enabled := true, peer := some (0, 0) }] }
+def exSt : St := { nodes := [exA, exB] }
+
+example : exSt.node? 0 = some exA ∧ exA.kind = .host ∧ firstEnabledIn exA.ifaces ipB 0 = some 0 ∧
+    exA.arpGet ipB = some { ip := ipB, mac := 2, ifc := 0 } := by decide
+example : firstEnabledIn exA.ifaces ipFar 0 = none ∧ exA.gateway = some ipGw ∧
+    exA.arpGet ipGw = some { ip := ipGw, mac := 2, ifc := 0 } ∧ exA.ifaces.any (·.enabled) = true := by decide
+example : firstEnabledIn exB.ifaces ipFar 0 = none ∧ exB.gateway = none := by decide
+/-- the model really delivers: A pings B once over a cold cache of B, the reply comes back, result `True`. -/
+example : (ping 40 exSt 0 ipB 1).2 = true := by decide +kernel
+/-- … and an exhausted frame is dropped at B's NIC: with TTL 1 the request is logged but never reaches software. -/
+example : (ifaceRecv 5 exSt 1 0 { id := 9, srcMac := 1, dstMac := 2, srcIp := ipA, dstIp := ipB, ttl := 1, pl := .echoReq 3 }).1.log =
+    [.rx 1 0 9 1] := by decide +kernel
+example : UniqueMacs exSt := by
+  intro n m i j a b ha hb hab
+  match n, m, i, j with
+  | 0, 0, 0, 0 => exact ⟨rfl, rfl⟩
+  | 1, 1, 0, 0 => exact ⟨rfl, rfl⟩
+  | 0, 1, 0, 0 =>
+    simp only [St.iface?, exSt, exA, exB, List.getElem?_cons_zero, List.getElem?_cons_succ, Option.bind_some, Option.some.injEq] at ha hb
+    subst ha hb; simp at hab
+  | 1, 0, 0, 0 =>
+    simp only [St.iface?, exSt, exA, exB, List.getElem?_cons_zero, List.getElem?_cons_succ, Option.bind_some, Option.some.injEq] at ha hb
+    subst ha hb; simp at hab
+  | 0, _, i + 1, _ => simp [St.iface?, exSt, exA] at ha
+  | 1, _, i + 1, _ => simp [St.iface?, exSt, exB] at ha
+  | n + 2, _, _, _ => simp [St.iface?, exSt] at ha
+  | _, 0, _, j + 1 => simp [St.iface?, exSt, exA] at hb
+  | _, 1, _, j + 1 => simp [St.iface?, exSt, exB] at hb
+  | _, m + 2, _, _ => simp [St.iface?, exSt] at hb
+example : WellAddressed exSt { id := 0, srcMac := 1, dstMac := 2, srcIp := ipA, dstIp := ipB, ttl := 64, pl := .echoReq 3 } :=
+  ⟨1, 0, _, exB, rfl, rfl, rfl, Or.inl rfl⟩
+example : hostArpNext exA ipFar false false = .go ipFar true false ∧ hostArpNext exA ipFar true false = .go ipGw true true := by
+  decide
+
 end Primaite.Forward
